@@ -28,8 +28,18 @@ def run_probe(prop, pairs, max_devices=24):
     rng = random.Random(seed() ^ 0x5A5A)
     import p_probe
     # devices that cannot compile for a recorded reason (a field wider than 128 bits: F18) are C19's concern
-    chosen = [(c, a, mf) for c, a, mf in pairs if a.get("tokens") and not has_cfg(c) and not wo_field(c)
-              and not p_probe.has_wide_field(c["adef"])][:max_devices]
+    usable = [(c, a, mf) for c, a, mf in pairs if a.get("tokens") and not has_cfg(c) and not wo_field(c)
+              and not p_probe.has_wide_field(c["adef"])]
+    # a third of the devices are ones with a negative stride (their address arithmetic subtracts in the internal
+    # type), half of those with no negative address anywhere (unsigned internal type); the rest in generation order
+    def neg_stride(a):
+        return any((m.get("repeat") or {}).get("op") == "-" for b in a["facts"].get("blocks", []) for m in b.get("methods", []))
+    def no_neg_addr(a):
+        return not any(str(m.get("address", "0")).startswith("-") for b in a["facts"].get("blocks", []) for m in b.get("methods", []))
+    first = [t for t in usable if neg_stride(t[1]) and no_neg_addr(t[1])][:max(1, max_devices // 6)]
+    first += [t for t in usable if neg_stride(t[1]) and not no_neg_addr(t[1])][:max(1, max_devices // 6)]
+    ids = {id(t[0]) for t in first}
+    chosen = (first + [t for t in usable if id(t[0]) not in ids])[:max_devices]
     stats = {"runtime_devices": 0, "runtime_lines": 0, "runtime_panics": 0}
     viols = []
     if not chosen:
@@ -71,8 +81,12 @@ def run_probe(prop, pairs, max_devices=24):
         for why, where in rtprobe.compare(c, a["facts"], lines_f, printed, want):
             fid = None
             known = mf is not None and p_gen.facts_equal(a["facts"], mf)[0]
-            if known and "valid index tuple panics" in why and prop in ("C13", "C04", "C19", "C20"):
-                fid = "F6c-internal-type-overflow-in-address-arithmetic" if prop == "C13" else None
+            if known and "valid index tuple panics" in why and prop == "C13":
+                # recorded only where the emitted arithmetic, evaluated term by term in the internal type as the
+                # facts describe it, is predicted to overflow (F6c) or the range analysis missed the instance (F6a/F6b)
+                st = oracles.check(prop, c, a, mf)
+                if st and st.get("finding"):
+                    fid = st["finding"]
             if prop != "C13" and "valid index tuple panics" in why:
                 continue   # overflow of the internal type is C13's concern
             if known and "reached the interface at" in why and prop in ("C13", "C04"):
